@@ -378,7 +378,10 @@ class ExprDict(Expr):
     def iterate(self, *, flat: bool = True) -> Iterator[str | Expr]:
         yield "{"
         yield from _join(
-            (("**", value) if key is None else (key, ": ", value) for key, value in zip(self.keys, self.values)),
+            (
+                ("**", _operand(value, _BOR)) if key is None else (key, ": ", value)
+                for key, value in zip(self.keys, self.values)
+            ),
             ", ",
             flat=flat,
         )
